@@ -73,6 +73,11 @@ Salts == { [nus |-> <<Q(1), Q(1)>>, zs |-> <<Q(1), Q(-1)>>, pm |-> <<400, 300>>]
            \* uncharged participants (H+ + A- -> HA;  a salt with a neutral co-solute)
            [nus |-> <<Q(-1), Q(-1), Q(1)>>, zs |-> <<Q(1), Q(-1), Q(0)>>, pm |-> <<900, 400, 300>>],
            [nus |-> <<Q(1), Q(2), Q(3)>>, zs |-> <<Q(2), Q(-1), Q(0)>>, pm |-> <<800, 300, 250>>],
+           \* several ions of the SAME charge with different sizes (ion exchange H+ / Na+; a mixed
+           \* electrolyte; two anions): every ion contributes with its own size parameter
+           [nus |-> <<Q(1), Q(-1)>>, zs |-> <<Q(1), Q(1)>>, pm |-> <<900, 425>>],
+           [nus |-> <<Q(1), Q(1), Q(2)>>, zs |-> <<Q(1), Q(1), Q(-1)>>, pm |-> <<900, 425, 300>>],
+           [nus |-> <<Q(2), Q(1), Q(1)>>, zs |-> <<Q(1), Q(-1), Q(-1)>>, pm |-> <<400, 300, 1200>>],
            \* fractional stoichiometry
            [nus |-> <<R(1, 2), Q(1)>>, zs |-> <<Q(2), Q(-1)>>, pm |-> <<800, 300>>] }
 ProdPts(Ks, Is, Ts, Es, Rs, Cs) ==
